@@ -25,3 +25,50 @@ Print Assumptions c19_winner_unique.
 Theorem c19_empty : forall A, ws_val (fold_left feed (@nil (cdecl A)) ws_default) = None.
 Proof. exact CascadeProof.c19_empty. Qed.
 Print Assumptions c19_empty.
+
+(* ---------- inheritance (Proofs/Inherit.v): every tag is the annotations of the enclosing nodes, outermost first; the last colour
+   annotation of a piece of text is that of the nearest enclosing node with a colour ---------- *)
+From H2T Require Import Sub Dom Render Api Proofs.WrapInv Proofs.RenderWidth Proofs.AnnBalance Proofs.Inherit.
+Theorem render_node_inherit :
+  forall (d : deco) (mw : N) (n : rnode) (Q : tag -> Prop) (st st' : rstate) 
+         (s : subr) (rest : list subr),
+       Q [] ->
+       (forall t : tag, tree_tag d (ann_stack s) (0 <? pre_depth s) (pe_of n) t -> Q t) ->
+       render_node d mw n st = Ok st' ->
+       stack st = s :: rest ->
+       sub_Q Q s -> exists s' : subr, stack st' = s' :: rest /\ meta_of s' = meta_of s /\ sub_Q Q s'.
+Proof. exact Inherit.render_node_inherit. Qed.
+Print Assumptions render_node_inherit.
+
+Theorem text_leaf_at_path :
+  forall (d : deco) (B : list ann) (pre0 : bool) (e : pe) (p : list (rinfo * cstyle)) 
+         (i : rinfo) (sty : cstyle),
+       path_from e (p ++ [(i, sty)]) ->
+       text_leaf i = true ->
+       forall t : tag,
+       (tree_tag d (B ++ enclosing_anns d p) (pre0 || path_pre p) (i, sty) t <->
+        with_pre d (pre0 || path_pre (p ++ [(i, sty)])) (B ++ enclosing_anns d (p ++ [(i, sty)])) t) /\
+       (tree_tag d (B ++ enclosing_anns d p) (pre0 || path_pre p) (i, sty) t -> tree_tag d B pre0 e t).
+Proof. exact Inherit.text_leaf_at_path. Qed.
+Print Assumptions text_leaf_at_path.
+
+Theorem render_tree_inherit :
+  forall (d : deco) (mw : N) (o : ropts) (width : N) (tree : rnode) (s : subr),
+       render_tree d mw o width tree = Ok s -> sub_Q (root_tag d tree) s.
+Proof. exact Inherit.render_tree_inherit. Qed.
+Print Assumptions render_tree_inherit.
+
+Theorem path_tag_colour :
+  forall (d : deco) (B : tag) (pre0 : bool) (p : list pe) (t : tag),
+       deco_plain d ->
+       path_tag d B pre0 p t ->
+       last_fg t = last_some (node_fg d) p (last_fg B) /\ last_bg t = last_some (node_bg d) p (last_bg B).
+Proof. exact Inherit.path_tag_colour. Qed.
+Print Assumptions path_tag_colour.
+
+Theorem render_tree_colour_inherit :
+  forall (d : deco) (mw : N) (o : ropts) (width : N) (tree : rnode) (s : subr),
+       deco_plain d -> render_tree d mw o width tree = Ok s -> sub_Q (root_tag_col d tree) s.
+Proof. exact Inherit.render_tree_colour_inherit. Qed.
+Print Assumptions render_tree_colour_inherit.
+
